@@ -24,6 +24,12 @@ CHECKS = {
  "C16": dict(tech="runtime monitoring: operation histories stepped in lock-step with an ordered-map model, invariant + rendering compared after every operation",
    text="All sequences of 4 (quick) / 5 (thorough) operations over 17 public construction operations plus random sequences up to length 40; after every step children()/get_child()/remove_child()/standalone()/text and the rendered fields are compared with the model, and the rendering goes through the C04 well-formedness checker.",
    note="Attributes are observable only through rendering; fields are compared as sets because order is not claimed for hand-built trees.", ref="4/C16", exhaustive=True),
+ "C07": dict(tech="runtime monitoring: hostile byte workloads in journalled child processes with catch_unwind, exit-status and no-progress monitors; valgrind memcheck slice in thorough",
+   text="1.6M (quick) / 64M (thorough) hostile inputs x reader kinds x all 128 reader configurations, through into_struct, extend_struct and to_serde_struct under presets and hostile option strings; a panic is caught per call, a dead or wedged process is pinned to its case through a journal and confirmed by re-running that case alone three times; nesting ladders to depth 200 on a 2 MiB stack. Thorough adds a valgrind memcheck slice.",
+   note="Optimized harness with debug assertions and overflow checks; depth > 200 and inputs > 64 KiB not claimed; watchdog firings that do not reproduce are inconclusive, not violations.", ref="4/C07"),
+ "C08": dict(tech="runtime monitoring: verdict of into_struct/extend_struct compared with an independent flat pass over the same reader events",
+   text="1.6M (quick) / 48M (thorough) damaged and valid inputs, default reader configuration, every buffered reader kind; Ok/Err must agree with the first fault found by a second reader of the same kind (reader error, attribute error, non-UTF-8 name/key/text, no element), and a syntax error must come back as the variant carrying the reader's error and one of its two positions. The evidence holds the histogram of expected verdict classes.",
+   note="Trusts quick-xml's own event stream as the definition of a syntax error; error variants other than the syntax-error one are not constrained.", ref="4/C08"),
 }
 
 NOT_YET = {}
